@@ -30,6 +30,11 @@ def corpus(ctx, max_exh=3, n_random=300, max_leaves=12):
     for _ in range(n_random):
         n = ctx.rng.randint(4, max_leaves)
         t = exprs.random_dom_tree(ctx.rng, n, rc3, h3, f3)
+        if ctx.rng.random() < 0.65:   # mostly valid deep trees: plain random ones are invalid more often than not and exercise the error path only
+            for _try in range(40):
+                if exprs.dom(t) and exprs.valid(t):
+                    break
+                t = exprs.random_dom_tree(ctx.rng, n, rc3, h3, f3)
         rk = sorted({k for k in exprs.leaves(t) if exprs.kind(k) == "rc"})
         for _ in range(3):
             out.append((t, {k: ctx.rng.choice(STATES) for k in rk}))
@@ -147,6 +152,7 @@ def replay_eval(path):
         rho = inp.get("rc", {})
         keys = set(__import__("re").findall(r"\[(\d+)\]", ex))
         evalimpl.set_cer(rc=rho, hints=default_hints([k for k in keys if exprs.kind(k) == "hint"]),
-                         fc={k: tuple(v) for k, v in inp.get("fc", {}).items()} or {k: (True, None) for k in keys if exprs.kind(k) == "fc"})
+                         fc={k: (tuple(v) if isinstance(v, (list, tuple)) else (bool(v), None if v else f"{k} muss erfüllt sein")) for k, v in inp.get("fc", {}).items()}
+                         or {k: (True, None) for k in keys if exprs.kind(k) == "fc"})
         print(" now:", ex, rho, "->", evalimpl.outcome(lambda: evalimpl.rc_evaluation(ex)))
     return 0
